@@ -760,6 +760,8 @@ func (ctx Ctx) callExpr(s *ast.CallExpr) coq.Expr {
 				msg = constant.StringVal(v)
 			}
 		}
+		// the message becomes a Gallina string: escape quotes the Coq way
+		msg = strings.ReplaceAll(msg, `"`, `""`)
 		return coq.NewCallExpr(coq.GallinaIdent("Panic"), coq.GallinaString(msg))
 	}
 	// Special case for *sync.NewCond
